@@ -257,10 +257,7 @@ fn case_strategy() -> impl Strategy<Value = Case> + Clone {
 pub fn run(tier: Tier) -> i32 {
     let mut run = Run::new("C12", tier);
     run.assume("documented preconditions of Number::new_approx: 0 <= accuracy <= 1 and max_den <= 64 (it panics otherwise by contract)");
-    run.replay_regressions(&|_part, j| {
-        let c: Case = case_from(j)?;
-        oracle(&c, &mut Stats::default())
-    });
+    run.replay_regressions(&|_part, j| replay(j));
 
     // (a) dense grid, exhaustive over the parameter sets
     let step: u64 = tier.pick(480, 3840);
@@ -318,10 +315,153 @@ pub fn run(tier: Tier) -> i32 {
             r
         },
     );
+    // (c) the callers
+    if !run.failed() {
+        run_prop(
+            &mut run,
+            "callers",
+            "numeric and range quantities in any bundled unit (any key) passed to fit / convert(Metric) / convert(Imperial) / try_fraction / convert(to a unit): every fraction in the result (both range ends) obeys the settings units.toml gives for the unit the result is expressed in (enabled, whole limit, denominator limit, accuracy), computed from the file by the harness; non-trivial = the result holds a fraction; distinct = distinct case",
+            caller_strategy,
+            tier.pick(150_000, 8_000_000),
+            |c: &CallerCase, st| {
+                st.sample(|| json!({"unit": c.unit, "start": f64::from_bits(c.start_bits), "end": c.end_bits.map(f64::from_bits), "op": c.op % 5}));
+                check_caller(c, st)
+            },
+        );
+    }
     run.finish()
 }
 
 pub fn replay(j: &serde_json::Value) -> Verdict {
+    if j.get("op").is_some() {
+        return check_caller(&case_from(j)?, &mut Stats::default());
+    }
     let c: Case = case_from(j)?;
     oracle(&c, &mut Stats::default())
+}
+
+// ---------------------------------------------------------------------------
+// callers: the limits "requested" by try_fraction / fit / convert are the fraction settings the
+// units file gives for the unit the result is expressed in
+
+use cooklang::convert::{System, UnitsFile};
+use cooklang::quantity::{Quantity, ScaledQuantity, Value};
+
+use crate::pipeline::BUNDLED;
+
+#[derive(Debug, Clone, Serialize, Deserialize)]
+pub struct CallerCase {
+    pub unit: u16,
+    pub key: u8,
+    pub start_bits: u64,
+    pub end_bits: Option<u64>,
+    /// 0 fit, 1 convert(Metric), 2 convert(Imperial), 3 try_fraction, 4 convert(to unit `target`)
+    pub op: u8,
+    pub target: u16,
+}
+
+/// (enabled, accuracy, max denominator, max whole) per bundled unit symbol, computed from units.toml itself
+/// with the documented inheritance (unit entry <- quantity <- system <- base; missing = defaults)
+static BUNDLED_FRACTIONS: std::sync::LazyLock<Result<Vec<(String, (bool, f32, u8, u32))>, String>> = std::sync::LazyLock::new(|| {
+    let text = std::fs::read_to_string(repo_dir().join("units.toml")).map_err(|e| format!("cannot read units.toml: {e}"))?;
+    let uf: UnitsFile = toml::from_str(&text).map_err(|e| format!("units.toml: {e}"))?;
+    let fr = uf.fractions.unwrap_or_default();
+    type H = cooklang::convert::units_file::FractionsConfigHelper;
+    let merge = |a: H, b: H| H { enabled: a.enabled.or(b.enabled), accuracy: a.accuracy.or(b.accuracy), max_denominator: a.max_denominator.or(b.max_denominator), max_whole: a.max_whole.or(b.max_whole) };
+    let define = |h: H| (h.enabled.unwrap_or(false), h.accuracy.unwrap_or(0.05).clamp(0.0, 1.0), h.max_denominator.unwrap_or(4).clamp(1, 16), h.max_whole.unwrap_or(u32::MAX));
+    let mut out = vec![];
+    for u in BUNDLED.all_units() {
+        let general: Vec<H> = [
+            fr.quantity.get(&u.physical_quantity).map(|c| c.get()),
+            u.system.and_then(|s| match s {
+                System::Metric => fr.metric.map(|c| c.get()),
+                System::Imperial => fr.imperial.map(|c| c.get()),
+            }),
+            fr.all.map(|c| c.get()),
+        ]
+        .into_iter()
+        .flatten()
+        .collect();
+        let own = fr.unit.iter().find(|(k, _)| BUNDLED.find_unit(k).is_some_and(|f| *f == *u)).map(|(_, c)| c.get());
+        let cfg = match own {
+            Some(c) => define(general.iter().fold(c, |acc, g| merge(acc, *g))),
+            None => define(general.first().copied().unwrap_or_default()),
+        };
+        out.push((u.symbol().to_string(), cfg));
+    }
+    Ok(out)
+});
+
+fn check_caller(c: &CallerCase, st: &mut Stats) -> Verdict {
+    let table = BUNDLED_FRACTIONS.as_ref().map_err(|e| Violation::new("c12.infrastructure", e.clone()))?;
+    let units: Vec<_> = BUNDLED.all_units().collect();
+    let u = units[c.unit as usize % units.len()];
+    let keys: Vec<String> = u.names.iter().chain(&u.symbols).chain(&u.aliases).map(|k| k.to_string()).collect();
+    let key = &keys[c.key as usize % keys.len()];
+    let (s, e) = (f64::from_bits(c.start_bits), c.end_bits.map(f64::from_bits));
+    let value = match e {
+        Some(e) => Value::Range { start: Number::Regular(s), end: Number::Regular(e) },
+        None => Value::Number(Number::Regular(s)),
+    };
+    let mut q: ScaledQuantity = Quantity::new(value, Some(key.clone()));
+    let before = q.clone();
+    let target = units[c.target as usize % units.len()].symbol().to_string();
+    let what = ["fit()", "convert(Metric)", "convert(Imperial)", "try_fraction()", "convert(unit)"][c.op as usize % 5];
+    let r = guard(|| match c.op % 5 {
+        0 => q.fit(&BUNDLED).is_ok(),
+        1 => q.convert(System::Metric, &BUNDLED).is_ok(),
+        2 => q.convert(System::Imperial, &BUNDLED).is_ok(),
+        3 => q.try_fraction(&BUNDLED),
+        _ => q.convert(target.as_str(), &BUNDLED).is_ok(),
+    });
+    if let Err(p) = r {
+        vbail!("c12.panic", "{before:?}.{what} panicked: {p}");
+    }
+    let Some(ru) = q.unit().and_then(|k| BUNDLED.find_unit(k)) else {
+        return Ok(());
+    };
+    let Some((_, (enabled, acc, max_den, max_whole))) = table.iter().find(|(sym, _)| sym == ru.symbol()) else {
+        vbail!("c12.infrastructure", "unit {ru} not in the fraction table");
+    };
+    st.class(what);
+    st.class_if(e.is_some(), "range");
+    let nums: Vec<(&str, &Number)> = match q.value() {
+        Value::Number(n) => vec![("value", n)],
+        Value::Range { start, end } => vec![("range start", start), ("range end", end)],
+        Value::Text(_) => vec![],
+    };
+    for (which, n) in nums {
+        if let Number::Fraction { whole, num, den, err } = *n {
+            st.nontrivial(&(c.unit as usize % units.len(), c.start_bits, c.end_bits, c.op % 5, c.target as usize % units.len()));
+            st.class("fraction in the result");
+            st.class_if(ru.symbol() != u.symbol(), "fraction in another unit than the input");
+            let v = n.value();
+            let ctx = format!("{before:?}.{what} gave {q:?}; the units file gives `{}` enabled={enabled} accuracy={acc} max_denominator={max_den} max_whole={max_whole}", ru.symbol());
+            vensure!(*enabled, "c12.caller-fraction-where-disabled", "{which} is a fraction although fractions are disabled for the result unit: {ctx}");
+            vensure!(whole <= *max_whole, "c12.caller-whole-above-limit", "{which}: whole part {whole} above the limit of the result unit: {ctx}");
+            if num != 0 {
+                vensure!(den <= *max_den as u32 && DENS.contains(&den), "c12.caller-den-above-limit", "{which}: denominator {den} above the limit of the result unit: {ctx}");
+                vensure!(num < den, "c12.improper", "{which}: numerator {num} not below denominator {den}: {ctx}");
+            }
+            vensure!(err.abs() <= *acc as f64 * v.abs() * (1.0 + 1e-9) + f64::MIN_POSITIVE, "c12.caller-error-above-accuracy", "{which}: recorded error {err:e} above accuracy x value: {ctx}");
+        }
+    }
+    Ok(())
+}
+
+fn caller_strategy() -> impl Strategy<Value = CallerCase> {
+    let val = prop_oneof![
+        3 => (1u32..40_000).prop_map(|k| k as f64 / 16.0),
+        2 => (1u32..4000).prop_map(|k| k as f64 / 12.0),
+        2 => (0.01f64..50.0),
+        1 => (0.0f64..5000.0),
+    ];
+    (any::<u16>(), any::<u8>(), val.clone(), proptest::option::weighted(0.5, val), 0u8..5, any::<u16>()).prop_map(|(unit, key, s, e, op, target)| CallerCase {
+        unit,
+        key,
+        start_bits: s.to_bits(),
+        end_bits: e.map(|e| (s + e).to_bits()),
+        op,
+        target,
+    })
 }
